@@ -136,3 +136,31 @@ impl AtomicEpoch {
         }
     }
 }
+
+/// Thin wrappers over `Epoch` for the verification harness.
+#[cfg(circ_verif)]
+pub mod verif_shim_epoch {
+    use super::*;
+    /// `op`: 0 wrapping_sub(x), 1 is_pinned, 2 pinned, 3 unpinned, 4 successor, 5 value.
+    pub fn epoch_op(op: u32, d: usize, x: usize) -> usize {
+        let e = Epoch { data: d };
+        match op {
+            0 => e.wrapping_sub(Epoch { data: x }) as usize,
+            1 => e.is_pinned() as usize,
+            2 => e.pinned().data,
+            3 => e.unpinned().data,
+            4 => e.successor().data,
+            5 => e.value(),
+            _ => panic!("unsupported op"),
+        }
+    }
+    pub fn starting() -> usize {
+        Epoch::starting().data
+    }
+    pub fn from_data(d: usize) -> Epoch {
+        Epoch { data: d }
+    }
+    pub fn data(e: Epoch) -> usize {
+        e.data
+    }
+}
